@@ -202,7 +202,6 @@ fn case(t: &mut Tape, st: &mut Stats, max_len: usize) -> Verdict {
                 cmd = "writebinfile";
                 args = vec![abs(&p), h.clone()];
                 let r = exec(&mut ctx, cmd, &args);
-                let _ = exec(&mut ctx, "release", &[h]);
                 let can = ancestors_ok(&m, &p) && !matches!(m.get(&p), Some(Node::Dir));
                 if can {
                     make_parents(&mut m, &p);
@@ -222,8 +221,21 @@ fn case(t: &mut Tape, st: &mut Stats, max_len: usize) -> Verdict {
                     }
                 } else {
                     failing_ops += 1;
-                    verdict = if failed(&r) { Ok(()) } else { Err(format!("expected a failure, got {}", show(&r))) };
+                    let first: Result<(), String> = if failed(&r) { Ok(()) } else { Err(format!("expected a failure, got {}", show(&r))) };
+                    // the same data, still held by the script, written to another path right after the refused write
+                    let p2 = file(t);
+                    if first.is_ok() && ancestors_ok(&m, &p2) && !matches!(m.get(&p2), Some(Node::Dir)) {
+                        st.class("binary-data-written-again-after-a-refused-write");
+                        let args2 = vec![abs(&p2), h.clone()];
+                        let r2 = exec(&mut ctx, cmd, &args2);
+                        make_parents(&mut m, &p2);
+                        m.insert(p2.clone(), Node::File(bytes.clone()));
+                        verdict = if ok_true(&r2) { Ok(()) } else { Err(format!("second write of the same data to {} (after the refused write) expected true, got {}", abs(&p2), show(&r2))) };
+                    } else {
+                        verdict = first;
+                    }
                 }
+                let _ = exec(&mut ctx, "release", &[h]);
             }
             4 => {
                 let p = if t.chance(1, 6) { dirp(t) } else { file(t) };
@@ -523,7 +535,7 @@ fn case_t(t: &mut Tape, st: &mut Stats) -> Verdict {
 pub fn property() -> Property {
     Property {
         id: "C18",
-        rule: "histories of 1..30 (thorough ..80) file operations inside a fresh tmpfs scratch directory (absolute paths only): writefile, appendfile, readfile, writebinfile+readbinfile (arbitrary bytes through handles), touch, mkdir, cp, mv, rm (with/without -r, one or two paths), rmdir, is_path_exists / is_file / is_dir, get_file_size, glob_array root/**/*, basename, dirname, join_path; path pool of files with extensions and directories without, nested, with spaces and non-ASCII, incl. paths below a file; operations on missing paths and wrong kinds. Oracle: reference tree BTreeMap<path, Dir|File(bytes)>; after EVERY step the command output and the real directory (walked with std::fs, contents read back) are compared with the model; a failing operation must leave the tree unchanged. Non-trivial: >= 1 failing operation and a cp/mv onto an existing file or into a directory; distinct by history",
+        rule: "histories of 1..30 (thorough ..80) file operations inside a fresh tmpfs scratch directory (absolute paths only): writefile, appendfile, readfile, writebinfile+readbinfile (arbitrary bytes through handles; after a refused binary write the same data is written again to another path), touch, mkdir, cp, mv, rm (with/without -r, one or two paths), rmdir, is_path_exists / is_file / is_dir, get_file_size, glob_array root/**/*, basename, dirname, join_path; path pool of files with extensions and directories without, nested, with spaces and non-ASCII, incl. paths below a file; operations on missing paths and wrong kinds. Oracle: reference tree BTreeMap<path, Dir|File(bytes)>; after EVERY step the command output and the real directory (walked with std::fs, contents read back) are compared with the model; a failing operation must leave the tree unchanged. Non-trivial: >= 1 failing operation and a cp/mv onto an existing file or into a directory; distinct by history",
         assumptions: &[
             "outside the domain (not generated): directory sources for cp/mv, cp/mv with source == target, mv of a file to a missing target without an extension, mv into a directory that already holds an entry of that name, trailing separators, glob metacharacters in names, permissions, symlinks",
             "the output of rm on a missing path and of touch on a directory is not compared (the tree is)",
@@ -537,7 +549,7 @@ pub fn property() -> Property {
                     Tier::Thorough => Plan::Random { cases: 900_000, max_len: 400 },
                 },
                 case: case_q,
-                min_classes: &[("cp-onto-existing-file", 500), ("mv-onto-existing-file", 300), ("mv-into-directory", 300), ("rm-non-empty-directory-without-r", 300)],
+                min_classes: &[("cp-onto-existing-file", 500), ("mv-onto-existing-file", 300), ("mv-into-directory", 300), ("rm-non-empty-directory-without-r", 300), ("binary-data-written-again-after-a-refused-write", 500)],
             },
             Section {
                 name: "long-histories",
